@@ -33,6 +33,45 @@ MESSAGE_FUNCS = {"print", "CParsingError", "colors", "repr", "dprint"}
 Role = Tuple[str, object, ast.AST]
 
 
+def table_keys(fn: Fn, e) -> Optional[List[str]]:
+    """Keys (dict) / elements (tuple, list, set) of a constant table reached as NAME, self.NAME, cls.NAME or Class.NAME --
+    also when only the keys fold (`{"define": check_define, ...}`: a dispatch table of functions)."""
+    v = fold_in_fn(e, fn, default=None)
+    if isinstance(v, dict):
+        ks = list(v)
+    elif isinstance(v, (tuple, list, set, frozenset)):
+        ks = list(v)
+    else:
+        disp = None
+        if isinstance(e, ast.Name):
+            from .model import program
+            disp = program().global_def(fn.mod, e.id) if hasattr(program(), "global_def") else None
+        elif isinstance(e, ast.Attribute) and isinstance(e.value, ast.Name):
+            from .model import program
+            prog = program()
+            own = fn
+            while own is not None and own.cls is None:
+                own = own.outer
+            cname = own.cls.name if (e.value.id in ("self", "cls") and own is not None) else e.value.id
+            seen = set()
+            while cname in prog.classes and cname not in seen:
+                seen.add(cname)
+                if e.attr in prog.classes[cname].attrs:
+                    disp = prog.classes[cname].attrs[e.attr]
+                    break
+                bases = prog.classes[cname].bases
+                cname = bases[0] if bases else None
+        if isinstance(disp, ast.Dict):
+            ks = [fold_in_fn(k, fn, default=None) if k is not None else None for k in disp.keys]
+        elif isinstance(disp, (ast.Tuple, ast.List, ast.Set)):
+            ks = [fold_in_fn(k, fn, default=None) for k in disp.elts]
+        else:
+            return None
+    if not ks or not all(isinstance(k, str) for k in ks):
+        return None
+    return ks
+
+
 def _loop_column(fn: Fn, name: ast.Name):
     """Values a loop variable takes when it ranges over a constant table: `for kind, prefix, code in ((..), (..))`."""
     for n in walk_fn(fn.node):
@@ -172,6 +211,10 @@ def classify(fn: Fn, node: ast.AST, depth=0, seen=None) -> List[Role]:
                     and not any(p.func.value is x for x in [node]):
                 # "...{}...".format(text) / sep.join([... text ...]): the text flows into the resulting string
                 return _joined(fn, p, depth, seen)
+            if isinstance(p.func, ast.Attribute) and p.func.attr in ("get", "__contains__", "index", "count") and p.args and p.args[0] is node:
+                ks = table_keys(fn, p.func.value)
+                if ks is not None:
+                    return [("LITERAL", ks, p)]            # a look-up in a constant table: a dispatch on its keys
             if fname in ("set", "frozenset"):
                 cs = _charset_test(fn, p)
                 return cs if cs is not None else classify(fn, p, depth + 1, seen)
@@ -200,6 +243,8 @@ def classify(fn: Fn, node: ast.AST, depth=0, seen=None) -> List[Role]:
             if isinstance(op, (ast.Is, ast.IsNot)) and isinstance(o, ast.Constant) and o.value is None:
                 return [("TRUTH", None, p)]
             c = _consts(fn, o)
+            if isinstance(op, (ast.In, ast.NotIn)) and c is None and p.left is node:
+                c = table_keys(fn, o)
             if isinstance(op, (ast.In, ast.NotIn)) and c is None:
                 # membership in a LIST of recorded spellings (an attribute that starts as [] and is only appended to) is a
                 # comparison between spellings, not a substring test: invariant under consistent renaming
@@ -247,6 +292,9 @@ def classify(fn: Fn, node: ast.AST, depth=0, seen=None) -> List[Role]:
             if pre is not None:
                 return pre
             return classify(fn, p, depth + 1, seen)      # element / slice of the text (or of the list derived from it)
+        ks = table_keys(fn, p.value)
+        if ks is not None:
+            return [("LITERAL", ks, p)]                    # TABLE[text] over a constant table: a dispatch on its keys
         return [("UNCLASSIFIED", "used as an index/key", p)]
     if isinstance(p, ast.Starred):
         return classify(fn, p, depth + 1, seen)
